@@ -3,15 +3,18 @@
  *       append_scopeid, ares_striendstr; ares_str.c (ares_strlen, ares_strcpy, ares_tolower); ares_free_hostent.c.
  * ENTRY 0: ares_getnameinfo() from scratch.  FAM 1 = struct sockaddr_in, 2 = struct sockaddr_in6 (exact-size heap objects:
  *          any over-read is a pointer-check failure), symbolic port / address / scope id.  FLAGCLASS: 0 = service only
- *          (LOOKUPSERVICE without LOOKUPHOST), 1 = numeric host, 2 = DNS lookup; all other flag bits symbolic.
+ *          (LOOKUPSERVICE without LOOKUPHOST), 1 = numeric host, 2 = DNS lookup.  -DFLAGS=<word>: the flag word is the
+ *          job's constant (quick tier: every branch on it folds), with the protocol / numeric-scope / IDN bits varied over
+ *          four constant call sites; without -DFLAGS every other flag bit is symbolic (thorough tier: CBMC cannot fold
+ *          a test on (constant | symbolic) bits, so every path of the file is encoded).
  *          BADSA: ANY sa_family and ANY salen <= object size (only a matching family with a full-size salen may pass).
  * ENTRY 1: nameinfo_callback() delivering the completion of the outstanding address-to-name lookup: ANY status 0..24, host
  *          entry exactly on success (the stub frees it after the callback returned, as end_aquery does).
  * Contract stubs:
  *   ares_gethostbyaddr_nolock   invokes its callback exactly once: synchronously (any status) or later (pending); checked on
  *                               the real code by compound_gha_*.  The callback it runs is the REAL nameinfo_callback.
- *   ares_inet_ntop              NUL-terminated text of ANY length up to 15 (IPv4) / 45 (IPv6) characters, never fails for
- *                               these families with a buffer of at least 16 / 46 bytes
+ *   ares_inet_ntop              NUL-terminated text of ANY length up to 15 (IPv4) / 45 (IPv6) characters (with -DFLAGS: the
+ *                               longest one), never fails for these families with a buffer of at least 16 / 46 bytes
  *   getservbyport_r             error | not found | entry without a name | name of 4, 32, 33 or 40 characters
  *   gethostname                 succeeds: "h.d.e" or "host";  if_indextoname: NULL | name of 3 or 15 characters
  *   snprintf("%u" / "%lu")      the right NUMBER of decimal digits for the value, digit values arbitrary
@@ -32,8 +35,24 @@ static int   vp_snprintf_num(char *buf, size_t n, const char *fmt, unsigned long
 #define gethostname                vp_gethostname
 #define if_indextoname             vp_if_indextoname
 #define snprintf(buf, n, fmt, val) vp_snprintf_num(buf, n, fmt, (unsigned long)(val))
+#ifndef VP_NATIVE
+/* the request state is a TYPED object for symex (its flags / family words stay constants when the job's are); accounting
+   as in valloc.c, released through ares_free as usual */
+static int vp_typed_pre(void);
+#  define ares_malloc(n) (vp_typed_pre() ? malloc(n) : NULL)
+#endif
 #include "ares_getnameinfo.c"
 #undef snprintf
+#undef ares_malloc
+#ifndef VP_NATIVE
+static int vp_typed_pre(void)
+{
+  vp_alloc_calls++;
+  if (vp_alloc_fail_at != 0 && vp_alloc_calls == vp_alloc_fail_at) return 0;
+  vp_alloc_live++;
+  return 1;
+}
+#endif
 
 #ifndef ENTRY
 #  define ENTRY 0
@@ -135,7 +154,11 @@ static struct hostent *make_hostent(int family)
 {
   struct hostent *h = TALLOC(struct hostent);
   size_t          i, n = family == AF_INET ? 4 : 16;
+#ifdef HOSTDOM /* 0: local host name without a domain; 1: with a domain the name found ends in; 2: with another domain */
+  int             m = HOSTDOM == 1;
+#else
   int             m = vp_bool();
+#endif
   VP_ASSUME(h != NULL);
   memset(h, 0, sizeof(*h));
   if (depth == 0) host_matches_domain = m;
@@ -174,14 +197,19 @@ void ares_gethostbyaddr_nolock(ares_channel_t *channel, const void *addr, int ad
   VP_ASSERT(family == expect_family, "the family looked up is the one of the socket address");
   gha_calls++;
   if (mode == 0) { /* completes synchronously */
-    int             st = (int)vp_range(0, 24);
-    int             t  = (int)vp_range(0, 2);
-    struct hostent *h  = st == ARES_SUCCESS ? make_hostent(family) : NULL;
+    int st = (int)vp_range(0, 24);
+    int t  = (int)vp_range(0, 2);
     sync_completed = 1;
-    g_host         = h;
     timeouts_sum  += t;
-    nameinfo_callback(arg, st, t, h);
-    if (h != NULL) ares_free_hostent(h); /* as end_aquery does */
+    /* two call sites: status and host pointer are constants for symex on the success path */
+    if (st == ARES_SUCCESS) {
+      struct hostent *h = make_hostent(family);
+      g_host = h;
+      nameinfo_callback(arg, ARES_SUCCESS, t, h);
+      ares_free_hostent(h); /* as end_aquery does */
+    } else {
+      nameinfo_callback(arg, st, t, NULL);
+    }
     return;
   }
   pending++;
@@ -194,7 +222,11 @@ const char *ares_inet_ntop(int af, const void *src, char *dst, ares_socklen_t si
   VP_ASSERT(af == AF_INET || af == AF_INET6, "address text for an Internet family");
   VP_ASSERT(size >= (ares_socklen_t)(maxlen + 1), "text buffer large enough for any address of the family");
   for (i = 0; i < n; i++) (void)((const unsigned char *)src)[i];
+#ifdef FLAGS /* concrete-shape jobs: the longest text of the family (worst case for every buffer) */
+  for (i = 0; i < maxlen; i++) dst[i] = 'x';
+#else
   for (i = 0; i < maxlen; i++) dst[i] = (char)vp_u8();
+#endif
   dst[maxlen] = 0;
   if (depth == 0) ntop_dst = dst;
   return dst;
@@ -246,7 +278,11 @@ static int vp_getservbyport_r(int port, const char *proto, struct servent *se, c
 static int vp_gethostname(char *name, size_t len)
 {
   VP_ASSERT(len >= 65, "host name buffer");
+#ifdef HOSTDOM
+  hostname_has_domain = HOSTDOM != 0;
+#else
   hostname_has_domain = vp_bool();
+#endif
   if (hostname_has_domain) {
     name[0] = 'h'; name[1] = '.'; name[2] = 'd'; name[3] = '.'; name[4] = 'e'; name[5] = 0;
   } else {
@@ -312,6 +348,32 @@ static void check_service(void)
     VP_ASSERT(user_service == NULL && serv_calls == 0, "no service string unless asked for and the port is set");
   }
 }
+
+#ifndef NVAR
+#  define NVAR 4 /* how many of the four protocol/scope/IDN variants the job runs */
+#endif
+#define VAR0 0u
+#define VAR1 ((unsigned)(ARES_NI_UDP | ARES_NI_NUMERICSCOPE))
+#define VAR2 ((unsigned)(ARES_NI_SCTP | ARES_NI_IDN))
+#define VAR3 ((unsigned)(ARES_NI_DCCP | ARES_NI_IDN_ALLOW_UNASSIGNED))
+#define EFF(f) ((unsigned)(f) | ((((unsigned)(f)) & (ARES_NI_LOOKUPHOST | ARES_NI_LOOKUPSERVICE)) ? 0u : (unsigned)ARES_NI_LOOKUPHOST))
+
+#if ENTRY == 1
+static struct hostent *e1_host;
+static char           *e1_hname;
+/* two call sites: status and host pointer are constants for symex on the success path */
+static void deliver(struct nameinfo_query *nq, int st, int t)
+{
+  if (st == ARES_SUCCESS) {
+    e1_host  = make_hostent(FAMILY);
+    g_host   = e1_host;
+    e1_hname = e1_host->h_name;
+    nameinfo_callback(nq, ARES_SUCCESS, t, e1_host);
+  } else {
+    nameinfo_callback(nq, st, t, NULL);
+  }
+}
+#endif
 
 void harness(void)
 {
@@ -383,22 +445,47 @@ void harness(void)
     }
 #  else
     {
-      unsigned int flags = other_flag_bits();
-#    if FLAGCLASS == 0
-      flags |= ARES_NI_LOOKUPSERVICE;
-      g_flags = flags;
-#    elif FLAGCLASS == 1
-      flags |= ARES_NI_NUMERICHOST;
-      if (vp_bool()) flags |= ARES_NI_LOOKUPHOST | (vp_bool() ? ARES_NI_LOOKUPSERVICE : 0); /* else neither: a host is assumed */
-      g_flags = flags | ARES_NI_LOOKUPHOST;
-#    else
-      if (vp_bool()) flags |= ARES_NI_LOOKUPHOST | (vp_bool() ? ARES_NI_LOOKUPSERVICE : 0);
-      g_flags = flags | ARES_NI_LOOKUPHOST;
-#    endif
 #    ifdef ALLOCFAIL
       vp_alloc_fail_at = ALLOCFAIL;
 #    endif
-      ares_getnameinfo(&ch, sa, SALEN, (int)flags, user_cb, &user_cb_count);
+#    ifdef FLAGS
+      switch (vp_range(0, NVAR - 1)) {
+        case 0:
+          g_flags = EFF(FLAGS | VAR0);
+          ares_getnameinfo(&ch, sa, SALEN, (int)(FLAGS | VAR0), user_cb, &user_cb_count);
+          break;
+#      if NVAR > 2 /* compiled out, not just assumed away: symex explores every case it can see */
+        case 2:
+          g_flags = EFF(FLAGS | VAR2);
+          ares_getnameinfo(&ch, sa, SALEN, (int)(FLAGS | VAR2), user_cb, &user_cb_count);
+          break;
+        case 3:
+          g_flags = EFF(FLAGS | VAR3);
+          ares_getnameinfo(&ch, sa, SALEN, (int)(FLAGS | VAR3), user_cb, &user_cb_count);
+          break;
+#      endif
+        default:
+          g_flags = EFF(FLAGS | VAR1);
+          ares_getnameinfo(&ch, sa, SALEN, (int)(FLAGS | VAR1), user_cb, &user_cb_count);
+          break;
+      }
+#    else
+      {
+        unsigned int flags = other_flag_bits();
+#      if FLAGCLASS == 0
+        flags |= ARES_NI_LOOKUPSERVICE;
+        g_flags = flags;
+#      elif FLAGCLASS == 1
+        flags |= ARES_NI_NUMERICHOST;
+        if (vp_bool()) flags |= ARES_NI_LOOKUPHOST | (vp_bool() ? ARES_NI_LOOKUPSERVICE : 0); /* else neither: a host is assumed */
+        g_flags = flags | ARES_NI_LOOKUPHOST;
+#      else
+        if (vp_bool()) flags |= ARES_NI_LOOKUPHOST | (vp_bool() ? ARES_NI_LOOKUPSERVICE : 0);
+        g_flags = flags | ARES_NI_LOOKUPHOST;
+#      endif
+        ares_getnameinfo(&ch, sa, SALEN, (int)flags, user_cb, &user_cb_count);
+      }
+#    endif
       vp_alloc_fail_at = 0;
       VP_ASSERT(vp_lock_depth == 0, "channel lock released");
       VP_ASSERT(user_cb_count + pending == 1, "after starting: completed exactly once, or exactly one request pending");
@@ -437,15 +524,13 @@ void harness(void)
   {
     struct nameinfo_query *nq = TALLOC(struct nameinfo_query);
     int                    st = (int)vp_range(0, 24), t0 = (int)vp_range(0, 3), t = (int)vp_range(0, 2);
-    struct hostent        *h  = NULL;
-    unsigned int           flags = other_flag_bits() | ARES_NI_LOOKUPHOST | (vp_bool() ? ARES_NI_LOOKUPSERVICE : 0);
-    char                  *hname = NULL;
+    struct hostent        *h;
+    unsigned int           flags;
+    char                  *hname;
     VP_ASSUME(nq != NULL);
     memset(nq, 0, sizeof(*nq));
-    g_flags      = flags;
     nq->callback = user_cb;
     nq->arg      = &user_cb_count;
-    nq->flags    = flags;
     nq->timeouts = (size_t)t0;
     nq->family   = FAMILY;
 #  if FAM == 2
@@ -459,13 +544,40 @@ void harness(void)
     memcpy(&nq->addr.addr4.sin_addr, g_addr, 4);
     (void)scope;
 #  endif
-    if (st == ARES_SUCCESS) {
-      h      = make_hostent(FAMILY);
-      g_host = h;
-      hname  = h->h_name;
-    }
     timeouts_sum = t0 + t;
-    nameinfo_callback(nq, st, t, h);
+#  ifdef FLAGS
+    switch (vp_range(0, NVAR - 1)) {
+      case 0:
+        g_flags = flags = EFF(FLAGS | VAR0);
+        nq->flags       = EFF(FLAGS | VAR0);
+        deliver(nq, st, t);
+        break;
+#    if NVAR > 2 /* compiled out, not just assumed away: symex explores every case it can see */
+      case 2:
+        g_flags = flags = EFF(FLAGS | VAR2);
+        nq->flags       = EFF(FLAGS | VAR2);
+        deliver(nq, st, t);
+        break;
+      case 3:
+        g_flags = flags = EFF(FLAGS | VAR3);
+        nq->flags       = EFF(FLAGS | VAR3);
+        deliver(nq, st, t);
+        break;
+#    endif
+      default:
+        g_flags = flags = EFF(FLAGS | VAR1);
+        nq->flags       = EFF(FLAGS | VAR1);
+        deliver(nq, st, t);
+        break;
+    }
+#  else
+    flags     = other_flag_bits() | ARES_NI_LOOKUPHOST | (vp_bool() ? ARES_NI_LOOKUPSERVICE : 0);
+    nq->flags = flags;
+    g_flags   = flags;
+    deliver(nq, st, t);
+#  endif
+    h       = e1_host;
+    hname   = e1_hname;
 
     VP_ASSERT(user_cb_count == 1 && pending == 0 && gha_calls == 0, "a completion is reported exactly once, nothing new is started");
     VP_ASSERT(user_timeouts == timeouts_sum, "timeouts reported = timeouts accumulated");
